@@ -46,9 +46,18 @@ def autocorr_1d_float(data):
     Syy = float64(0)  # Sum(Yi*Yi) when Yi is valid
     ny = float64(0)  # number of valid Yi
 
+    # The correlation does not depend on the level of the data: subtract the
+    # first valid sample so that the sums below keep their precision for
+    # series with a large mean and a small spread.
+    shift = float64(0)
+    for i in range(N + 1):
+        if not isnan(data[i]):
+            shift = float64(data[i])
+            break
+
     for i in range(N):
-        x = float64(xx[i])
-        y = float64(yy[i])
+        x = float64(xx[i]) - shift
+        y = float64(yy[i]) - shift
 
         x_ok = not isnan(x)
         y_ok = not isnan(y)
@@ -134,21 +143,32 @@ def autocorr_1d_int(data, nodata):
     Syy = int64(0)  # Sum(Yi*Yi) when Yi is valid
     ny = int64(0)  # number of valid Yi
 
-    for i in range(N):
-        x = xx[i]
-        y = yy[i]
+    # The correlation does not depend on the level of the data: subtract the
+    # first valid sample so that the sums below keep their precision for
+    # series with a large mean and a small spread.
+    shift = int64(0)
+    for i in range(N + 1):
+        if data[i] != nodata:
+            shift = int64(data[i])
+            break
 
-        if x != nodata:
+    for i in range(N):
+        x_ok = xx[i] != nodata
+        y_ok = yy[i] != nodata
+        x = int64(xx[i]) - shift
+        y = int64(yy[i]) - shift
+
+        if x_ok:
             Sx += x
             Sxx += x * x
             nx += 1
 
-        if y != nodata:
+        if y_ok:
             Sy += y
             Syy += y * y
             ny += 1
 
-        if x != nodata and y != nodata:  # pylint: disable=consider-using-in
+        if x_ok and y_ok:
             Sx_ += x
             Sy_ += y
             Sxy += x * y
